@@ -1553,6 +1553,7 @@ var shapeTargets = []shapeTarget{
 	{"cmd/thruserv", "handleWebSocket", "", "args:hub.Broadcast", "handler_bcast_args"},
 	{"cmd/thruserv", "handleWebSocket", "", "args:store.GetByJoinCode", "handler_lookup_args"},
 	{"internal/ice", "ProbeAndDial", "Prober", "if-cond-has:claimed", "probe_claim"},
+	{"internal/ice", "ProbeAndDial", "Prober", "select-cases", "probe_selects"},
 	{"internal/ice", "ProbeAndDial", "Prober", "args:probeWithTransport", "probe_phases"},
 	{"internal/ice", "ProbeAndDial", "Prober", "if-cond-has:directErr", "probe_phase_errs"},
 	{"internal/ice", "ProbeAndDial", "Prober", "if-cond-has:directCandidates", "probe_direct_phase"},
